@@ -11,7 +11,152 @@ use tonic_health::ServingStatus;
 
 fn st(v: u64) -> ServingStatus { match v { 1 => ServingStatus::Serving, 2 => ServingStatus::NotServing, _ => ServingStatus::Unknown } }
 
+/// Concurrent rounds: {threads:[[op..],..], epilogue:[op..]} on a multi-threaded runtime.  All threads start behind a
+/// barrier (op "barrier" re-synchronises them); the epilogue runs on thread 0 after they have all finished.
+/// op "watch_retry" = watch until subscribed (at most `v` attempts).
+static CONC_SEQ: std::sync::atomic::AtomicU64 = std::sync::atomic::AtomicU64::new(0);
+fn seq() -> u64 { CONC_SEQ.fetch_add(1, std::sync::atomic::Ordering::SeqCst) }
+#[derive(Clone)]
+struct COp { kind: String, s: String, v: u64, w: u64, burn: u64 }
+fn parse_op(op: &Value) -> COp { COp { kind: op["op"].as_str().unwrap_or("").to_string(), s: op["s"].as_str().unwrap_or("").to_string(), v: op["v"].as_u64().unwrap_or(0), w: op["w"].as_u64().unwrap_or(0), burn: op["burn"].as_u64().unwrap_or(0) } }
+/// (call seq, ret seq, thread, op name, service, v, w, result, status)
+type Local = Vec<(u64, u64, u64, &'static str, String, u64, u64, &'static str, i64)>;
+
+/// Events are stamped with a global sequence number taken (SeqCst fetch_add) just before the operation starts (`call`) and
+/// just after it returned (`ret`), kept in a per-task list and merged by number at the end of the round: if ret(A) is
+/// numbered before call(B), A had returned before B was started.  Failed attempts of watch_retry are not recorded (an
+/// unrecorded operation only removes constraints), except the last one.  Nothing is allocated or formatted between the
+/// barrier and the operation itself, so that the tasks really contend.
+async fn conc_op(t: u64, op: &COp, reporter: &mut tonic_health::server::HealthReporter,
+                 client: &mut HealthClient<tonic_health::pb::health_server::HealthServer<impl tonic_health::pb::health_server::Health>>,
+                 streams: &mut HashMap<u64, tonic::Streaming<tonic_health::pb::HealthCheckResponse>>, log: &mut Local) {
+    let attempts = if op.kind == "watch_retry" { op.v.max(1) } else { 1 };
+    let name: &'static str = match op.kind.as_str() { "set" => "set", "clear" => "clear", "check" => "check", "watch" | "watch_retry" => "watch", "next" => "next", _ => "unknown" };
+    for a in 0..attempts {
+        let c = seq();
+        let res: (&'static str, i64) = match name {
+            "set" => { reporter.set_service_status(&op.s, st(op.v)).await; ("done", -1) }
+            "clear" => { reporter.clear_service_status(&op.s).await; ("done", -1) }
+            "check" => match client.check(HealthCheckRequest { service: op.s.clone() }).await {
+                Ok(r) => ("status", r.get_ref().status as i64),
+                Err(e) => ("err", e.code() as i64),
+            },
+            "watch" => match client.watch(HealthCheckRequest { service: op.s.clone() }).await {
+                Ok(r) => { streams.insert(op.w, r.into_inner()); ("subscribed", -1) }
+                Err(e) => ("err", e.code() as i64),
+            },
+            "next" => match streams.get_mut(&op.w) {
+                None => ("nostream", -1),
+                Some(stm) => match tokio::time::timeout(Duration::from_millis(1), stm.message()).await {
+                    Err(_) => ("pending", -1),
+                    Ok(Ok(Some(m))) => ("item", m.status as i64),
+                    Ok(Ok(None)) => ("end", -1),
+                    Ok(Err(e)) => ("err", e.code() as i64),
+                },
+            },
+            _ => ("unknown", -1),
+        };
+        let r = seq();
+        let retry = name == "watch" && res.0 == "err" && a + 1 < attempts;
+        if !retry {
+            log.push((c, r, t, name, op.s.clone(), op.v, op.w, res.0, res.1));
+            break;
+        }
+        tokio::task::yield_now().await;
+    }
+}
+
+fn run_conc(stim: &Value, rec: &Rec) {
+    let threads: Vec<Vec<COp>> = stim["threads"].as_array().cloned().unwrap_or_default().iter().map(|t| t.as_array().cloned().unwrap_or_default().iter().map(parse_op).collect()).collect();
+    let epilogue: Vec<COp> = stim["epilogue"].as_array().cloned().unwrap_or_default().iter().map(parse_op).collect();
+    // one warm 8-worker runtime for all rounds of this process: freshly started workers run the tasks of a short round
+    // almost one after the other
+    static RT: std::sync::OnceLock<tokio::runtime::Runtime> = std::sync::OnceLock::new();
+    let rt = RT.get_or_init(|| tokio::runtime::Builder::new_multi_thread().worker_threads(8).enable_all().build().unwrap());
+    let log = rec.clone();
+    rt.block_on(async move {
+        let (reporter, server) = tonic_health::server::health_reporter();
+        let client = HealthClient::new(server);
+        let barrier = std::sync::Arc::new(tokio::sync::Barrier::new(threads.len()));
+        let mut joins = vec![];
+        for (i, ops) in threads.into_iter().enumerate() {
+            let (mut reporter, mut client, barrier) = (reporter.clone(), client.clone(), barrier.clone());
+            joins.push(tokio::spawn(async move {
+                let mut streams = HashMap::new();
+                let mut local: Local = Vec::with_capacity(ops.len() + 4);
+                barrier.wait().await;
+                for op in ops.iter() {
+                    if op.kind == "barrier" { barrier.wait().await; continue; }      // every thread of a round has the same number of barrier ops
+                    conc_op(i as u64 + 1, op, &mut reporter, &mut client, &mut streams, &mut local).await;
+                }
+                (streams, local)
+            }));
+        }
+        let mut streams = HashMap::new();
+        let mut all: Local = vec![];
+        let mut panicked = false;
+        for j in joins { match j.await { Ok((s, l)) => { streams.extend(s); all.extend(l); } Err(_) => panicked = true } }
+        let joined = seq();
+        let (mut reporter, mut client) = (reporter, client);
+        for op in epilogue.iter() { conc_op(0, op, &mut reporter, &mut client, &mut streams, &mut all).await; }
+        let mut evs: Vec<(u64, Value)> = vec![(joined, json!({"e":"joined"}))];
+        for (c, r, t, name, s, v, w, res, status) in all {
+            evs.push((c, json!({"e":"call","t":t,"op":name,"sn":s,"v":v,"w":w})));
+            evs.push((r, json!({"e":"ret","t":t,"res":{"r":res,"status":status}})));
+        }
+        evs.sort_by_key(|x| x.0);
+        for (_, e) in evs { log.ev(e); }
+        if panicked { panic!("a task of the concurrent round panicked"); }
+    });
+}
+
+/// Preemption rounds (class "preempt"): {tasks:[[op..],..], epilogue:[op..]} on the single-threaded runtime with a paused
+/// clock.  tokio's cooperative budget (128 units per task poll) makes every await on a tokio resource a possible yield
+/// point; each op carries `burn`: the task first yields (fresh budget), spends `burn` units, and then runs the operation,
+/// so the operation is preempted at its (129 - burn)-th budgeted await - inside the library's critical sections if they
+/// span more than one await.  Deterministic; the same call/ret history format as the multi-threaded rounds.
+fn run_preempt(stim: &Value, rec: &Rec) {
+    let tasks: Vec<Vec<COp>> = stim["tasks"].as_array().cloned().unwrap_or_default().iter().map(|t| t.as_array().cloned().unwrap_or_default().iter().map(parse_op).collect()).collect();
+    let epilogue: Vec<COp> = stim["epilogue"].as_array().cloned().unwrap_or_default().iter().map(parse_op).collect();
+    let log = rec.clone();
+    block_on_paused(async move {
+        let (reporter, server) = tonic_health::server::health_reporter();
+        let client = HealthClient::new(server);
+        let mut joins = vec![];
+        for (i, ops) in tasks.into_iter().enumerate() {
+            let (mut reporter, mut client) = (reporter.clone(), client.clone());
+            joins.push(tokio::spawn(async move {
+                let mut streams = HashMap::new();
+                let mut local: Local = Vec::with_capacity(ops.len() + 4);
+                for op in ops.iter() {
+                    tokio::task::yield_now().await;
+                    for _ in 0..op.burn { tokio::task::coop::consume_budget().await; }
+                    conc_op(i as u64 + 1, op, &mut reporter, &mut client, &mut streams, &mut local).await;
+                }
+                (streams, local)
+            }));
+        }
+        let mut streams = HashMap::new();
+        let mut all: Local = vec![];
+        let mut panicked = false;
+        for j in joins { match j.await { Ok((s, l)) => { streams.extend(s); all.extend(l); } Err(_) => panicked = true } }
+        let joined = seq();
+        let (mut reporter, mut client) = (reporter, client);
+        for op in epilogue.iter() { conc_op(0, op, &mut reporter, &mut client, &mut streams, &mut all).await; }
+        let mut evs: Vec<(u64, Value)> = vec![(joined, json!({"e":"joined"}))];
+        for (c, r, t, name, s, v, w, res, status) in all {
+            evs.push((c, json!({"e":"call","t":t,"op":name,"sn":s,"v":v,"w":w})));
+            evs.push((r, json!({"e":"ret","t":t,"res":{"r":res,"status":status}})));
+        }
+        evs.sort_by_key(|x| x.0);
+        for (_, e) in evs { log.ev(e); }
+        if panicked { panic!("a task of the preemption round panicked"); }
+    });
+}
+
 pub fn run(stim: &Value, rec: &Rec) {
+    if stim.get("threads").is_some() { return run_conc(stim, rec); }
+    if stim.get("tasks").is_some() { return run_preempt(stim, rec); }
     let log = rec.clone();
     let stim = stim.clone();
     block_on_paused(async move {
